@@ -73,6 +73,9 @@ def units():
             Unit("update[no screening, dynamic A]", U, _upd(False, True), props=["C10"], timeout=900),
             Unit("update[screening, static A]", U, _upd(True, False), props=["C10"], timeout=900),
             Unit("update[screening, dynamic A]", U, _upd(True, True), props=["C10"], timeout=900),
+            Unit("TDGLSolver.__init__[solvers on one mesh]", "tdgl.solver.solver:TDGLSolver.__init__",
+                 lambda m=None: __import__("checks.init_common", fromlist=["x"]).run_init(m, prefixes=("C10.",), again=True, narrow=dict(adaptive=True, include_screening=False)),
+                 props=["C10", "C06"], timeout=900),
             Unit("solve[hands over the state]", "tdgl.solver.solver:TDGLSolver.solve", _solve_unit, props=["C10", "C11"], timeout=300),
             harness.bounded_unit("operators in use vs rebuilt at every step of real runs [bounded]", "tdgl.solver.solver:TDGLSolver.update (real runs, time-dependent field)", "C10",
                                  _bounded_quick, "operators_equal_a_rebuild_for_the_potential_of_every_step[3 ramps, one solver solved twice]", timeout=900),
@@ -102,7 +105,7 @@ def replay_scope(unit, obl):
 
 
 def replay(unit, obl):
-    if unit.startswith("update[") or unit.startswith("solve["):
+    if unit.startswith("update[") or unit.startswith("solve[") or unit.startswith("TDGLSolver.__init__"):
         return replay_trigger(unit, obl)
     from checks import ops_native
     return ops_native.replay_any(unit, obl)
@@ -181,6 +184,24 @@ def replay_trigger(unit, obl, reduced=False):
                     break
     except Exception as e:  # noqa
         bad.append(dict(what=f"solving twice on one solver object raised {type(e).__name__}: {str(e)[:120]}"))
+    # two live solvers on one device (a sweep whose solvers are built first and solved later): running one does not touch the other's operators
+    try:
+        import tempfile as _tf2
+        with _tf2.TemporaryDirectory() as td_:
+            oa = tdgl.SolverOptions(solve_time=0.3, adaptive=False, dt_init=2e-2, field_units="mT", output_file=os.path.join(td_, "a.h5"), save_every=1000)
+            ob = tdgl.SolverOptions(solve_time=0.3, adaptive=False, dt_init=2e-2, field_units="mT", output_file=os.path.join(td_, "b.h5"), save_every=1000)
+            sa = TDGLSolver(dev, oa, applied_vector_potential=0.4)
+            sb = TDGLSolver(dev, ob, applied_vector_potential=LinearRamp(tmin=0.0, tmax=0.2) * ConstantField(1.5, field_units="mT", length_units="um"))
+            sb.solve()
+            n += 1
+            fresh = MeshOperators(dev.mesh, None, fixed_sites=np.array([], dtype=np.int64), fix_psi=False)
+            fresh.set_link_exponents(np.asarray(sa.current_A_applied))
+            err = abs(sa.operators.psi_laplacian - fresh.psi_laplacian).max()
+            if sa.operators is sb.operators or err > 1e-12:
+                bad.append(dict(what="two solvers built on one device share their operators: after the second solver ran, the first solver's Laplacian is not the one of ITS potential",
+                                same_object=bool(sa.operators is sb.operators), max_abs_diff_laplacian_vs_rebuild=float(err)))
+    except Exception as e:  # noqa
+        bad.append(dict(what=f"two solvers on one device raised {type(e).__name__}: {str(e)[:120]}"))
     # screening: at EVERY Euler step inside the self-consistency loop the operators must hold applied + induced potential of that
     # iteration.  The real update() is driven; adaptive_euler_step is wrapped (on the instance) and reads the caller's locals.
     import sys as _sys
